@@ -350,8 +350,446 @@ impl SubCheck for ManyFlows {
     }
 }
 
+
+// ------------------------------------------------------------------------------------------------ harness-owned interleavings
+//
+// The stress sub-checks above leave the interleaving to the machine. Here the harness owns it, at the granularity of
+// codec calls: several TCP flows and UDP sessions on one server context / one datagram codec (and per user one client
+// context) are advanced one call at a time in a generated order - client encodes a write, the server reads a segment,
+// the server encodes an answer, the client reads a segment - on one thread. Every order is reproducible and shrinks;
+// whatever a session observes must be what its own writes say, and a session that deviates is re-run alone before the
+// deviation is attributed to sharing.
+
+#[derive(Clone, Debug, Serialize, Deserialize)]
+pub struct StepSession {
+    /// a Shadowsocks UDP session instead of a TCP flow (Shadowsocks only; ignored elsewhere)
+    pub udp: bool,
+    pub user: u8,
+    pub ups: Vec<u32>,
+    pub downs: Vec<u32>,
+    /// segment sizes used cyclically when wire bytes are handed to a decoder (TCP)
+    pub seg: Vec<u16>,
+    /// preferences among the four kinds of call, used cyclically
+    pub script: Vec<u8>,
+}
+
+#[derive(Clone, Debug, Serialize, Deserialize)]
+pub struct StepCase {
+    pub proto: Proto,
+    pub n_users: u8,
+    pub seed: u64,
+    pub sessions: Vec<StepSession>,
+    /// which session makes the next call (index modulo the number of unfinished sessions); round-robin afterwards
+    pub schedule: Vec<u8>,
+}
+
+struct TcpSt {
+    cc: real::ClientTcp,
+    sc: real::ServerTcp,
+    up_wire: Vec<u8>,
+    sbuf: BytesMut,
+    items: Vec<real::Item>,
+    down_wire: Vec<u8>,
+    cbuf: BytesMut,
+    got_down: Vec<u8>,
+    s_fed: bool,
+    c_fed: bool,
+}
+
+struct UdpSt {
+    cc: Box<dyn real::ClientUdpDyn>,
+    up_q: std::collections::VecDeque<(usize, BytesMut)>,
+    down_q: std::collections::VecDeque<(usize, BytesMut)>,
+    sess: Option<real::USession>,
+    up_seen: usize,
+    down_seen: usize,
+}
+
+enum Kind {
+    Tcp(Box<TcpSt>),
+    Udp(Box<UdpSt>),
+}
+
+struct StepSt<'a> {
+    idx: usize,
+    plan: &'a StepSession,
+    kind: Kind,
+    target: Addr,
+    next_up: usize,
+    next_down: usize,
+    calls: usize,
+    done: bool,
+}
+
+struct Shared {
+    sctx: ServerCtx,
+    sudp: Option<Box<dyn real::ServerUdpDyn>>,
+    cctx: Vec<ClientCtx>,
+    cudp: Vec<Option<real::ClientUdpCtx>>,
+}
+
+fn step_shared(c: &StepCase) -> Result<Shared, String> {
+    let n = (c.n_users as usize).max(1);
+    let creds: Vec<real::Cred> = (0..n).map(|u| gen::make_cred(c.proto, "interleaving password", c.seed, c.n_users as usize, u)).collect();
+    let sctx = ServerCtx::new(&creds[0]).map_err(|e| format!("harness: server ctx: {}", e))?;
+    let is_ss = matches!(c.proto, Proto::SsLegacy(_) | Proto::Ss22(_));
+    let sudp = if is_ss && c.sessions.iter().any(|s| s.udp) { Some(real::server_udp(&creds[0]).map_err(|e| format!("harness: server udp: {}", e))?) } else { None };
+    let mut cctx = vec![];
+    let mut cudp = vec![];
+    for cr in &creds {
+        cctx.push(ClientCtx::new(cr).map_err(|e| format!("harness: client ctx: {}", e))?);
+        cudp.push(if sudp.is_some() { Some(real::ClientUdpCtx::new(cr).map_err(|e| format!("harness: client udp ctx: {}", e))?) } else { None });
+    }
+    Ok(Shared { sctx, sudp, cctx, cudp })
+}
+
+fn step_payload(seed: u64, idx: usize, down: bool, k: usize, len: u32) -> Vec<u8> {
+    gen::keystream(seed ^ ((idx as u64 + 1) << 36) ^ if down { 0x7777_0000 } else { 0 }, k * 70_001, len as usize)
+}
+
+fn step_new<'a>(c: &StepCase, sh: &Shared, idx: usize, plan: &'a StepSession) -> Result<StepSt<'a>, String> {
+    let nusers = sh.cctx.len();
+    let u = plan.user as usize % nusers;
+    let target = Addr::V4([10, 9, (idx / 200) as u8, (idx % 200) as u8 + 1], 3000 + idx as u16);
+    let address = to_address(&target).unwrap();
+    let kind = if plan.udp && sh.sudp.is_some() {
+        Kind::Udp(Box::new(UdpSt { cc: sh.cudp[u].as_ref().unwrap().codec(), up_q: Default::default(), down_q: Default::default(), sess: None, up_seen: 0, down_seen: 0 }))
+    } else {
+        Kind::Tcp(Box::new(TcpSt {
+            cc: sh.cctx[u].codec(&address).map_err(|e| format!("harness: client codec: {}", e))?,
+            sc: sh.sctx.codec().map_err(|e| format!("harness: server codec: {}", e))?,
+            up_wire: vec![],
+            sbuf: BytesMut::new(),
+            items: vec![],
+            down_wire: vec![],
+            cbuf: BytesMut::new(),
+            got_down: vec![],
+            s_fed: false,
+            c_fed: false,
+        }))
+    };
+    let _ = c;
+    Ok(StepSt { idx, plan, kind, target, next_up: 0, next_down: 0, calls: 0, done: false })
+}
+
+/// One call of one session. Err = the session observed something its own writes do not explain.
+fn step_once(c: &StepCase, sh: &Shared, st: &mut StepSt) -> Result<(), String> {
+    let plan = st.plan;
+    let pref = if plan.script.is_empty() { 0 } else { plan.script[st.calls % plan.script.len()] as usize };
+    let seg_len = |calls: usize| -> usize {
+        if plan.seg.is_empty() {
+            usize::MAX
+        } else {
+            match plan.seg[calls % plan.seg.len()] as usize {
+                0 => usize::MAX,
+                n => n,
+            }
+        }
+    };
+    let is22 = matches!(c.proto, Proto::Ss22(_));
+    let address = to_address(&st.target).unwrap();
+    st.calls += 1;
+    match &mut st.kind {
+        Kind::Tcp(t) => {
+            let server_ready = !t.items.is_empty();
+            for d in 0..4 {
+                match (pref + d) % 4 {
+                    0 if st.next_up < plan.ups.len() => {
+                        let w = step_payload(c.seed, st.idx, false, st.next_up, plan.ups[st.next_up]);
+                        st.next_up += 1;
+                        let mut wire = BytesMut::new();
+                        rt::catch(|| t.cc.encode(BytesMut::from(&w[..]), &mut wire)).map_err(|p| format!("client encode panicked: {}", p))?.map_err(|e| format!("client encode: {}", e))?;
+                        t.up_wire.extend_from_slice(&wire);
+                        return Ok(());
+                    }
+                    1 if !t.up_wire.is_empty() => {
+                        // Shadowsocks 2022 wants salt and fixed header in the first read: the first hand-over is whole
+                        let n = if is22 && !t.s_fed { t.up_wire.len() } else { seg_len(st.calls).min(t.up_wire.len()) };
+                        t.s_fed = true;
+                        let seg: Vec<u8> = t.up_wire.drain(..n).collect();
+                        t.sbuf.extend_from_slice(&seg);
+                        loop {
+                            match rt::catch(|| t.sc.decode(&mut t.sbuf)).map_err(|p| format!("server decode panicked: {}", p))? {
+                                Ok(Some(it)) => t.items.push(real::Item::from_inbound(&it).0),
+                                Ok(None) => break,
+                                Err(e) => return Err(format!("server decode: {}", e)),
+                            }
+                        }
+                        return Ok(());
+                    }
+                    2 if st.next_down < plan.downs.len() && server_ready => {
+                        let w = step_payload(c.seed, st.idx, true, st.next_down, plan.downs[st.next_down]);
+                        st.next_down += 1;
+                        let mut wire = BytesMut::new();
+                        rt::catch(|| t.sc.encode(real::OutboundIn::Tcp(BytesMut::from(&w[..])), &mut wire)).map_err(|p| format!("server encode panicked: {}", p))?.map_err(|e| format!("server encode: {}", e))?;
+                        t.down_wire.extend_from_slice(&wire);
+                        return Ok(());
+                    }
+                    3 if !t.down_wire.is_empty() => {
+                        let n = if is22 && !t.c_fed { t.down_wire.len() } else { seg_len(st.calls).min(t.down_wire.len()) };
+                        t.c_fed = true;
+                        let seg: Vec<u8> = t.down_wire.drain(..n).collect();
+                        t.cbuf.extend_from_slice(&seg);
+                        loop {
+                            match rt::catch(|| t.cc.decode(&mut t.cbuf)).map_err(|p| format!("client decode panicked: {}", p))? {
+                                Ok(Some(b)) => t.got_down.extend_from_slice(&b),
+                                Ok(None) => break,
+                                Err(e) => return Err(format!("client decode: {}", e)),
+                            }
+                        }
+                        return Ok(());
+                    }
+                    _ => {}
+                }
+            }
+            st.done = true;
+            Ok(())
+        }
+        Kind::Udp(u) => {
+            let sudp = sh.sudp.as_ref().unwrap();
+            for d in 0..4 {
+                match (pref + d) % 4 {
+                    0 if st.next_up < plan.ups.len() => {
+                        let k = st.next_up;
+                        let w = step_payload(c.seed, st.idx, false, k, plan.ups[k].min(1400));
+                        st.next_up += 1;
+                        let mut wire = BytesMut::new();
+                        rt::catch(|| u.cc.encode(&w, address.clone(), &mut wire)).map_err(|p| format!("client encode panicked: {}", p))?.map_err(|e| format!("datagram {}: client encode: {}", k, e))?;
+                        u.up_q.push_back((k, wire));
+                        return Ok(());
+                    }
+                    1 if !u.up_q.is_empty() => {
+                        let (k, mut wire) = u.up_q.pop_front().unwrap();
+                        let want = step_payload(c.seed, st.idx, false, k, plan.ups[k].min(1400));
+                        match rt::catch(|| sudp.decode(&mut wire)).map_err(|p| format!("server decode panicked: {}", p))? {
+                            Ok(Some((content, addr, sess))) => {
+                                if content != want || addr != address {
+                                    return Err(format!("datagram {}: server decoded {} bytes for {:?}, the session sent {} bytes for {:?}", k, content.len(), addr, want.len(), address));
+                                }
+                                if let Some(prev) = &u.sess {
+                                    if prev.client_sid != sess.client_sid || prev.user != sess.user {
+                                        return Err(format!("datagram {}: attributed to session {:x} user {:?}, earlier datagrams of the same codec to {:x} user {:?}", k, sess.client_sid, sess.user, prev.client_sid, prev.user));
+                                    }
+                                }
+                                u.sess = Some(sess);
+                                u.up_seen += 1;
+                            }
+                            Ok(None) => return Err(format!("datagram {}: server decoded nothing", k)),
+                            Err(e) => return Err(format!("datagram {}: server decode: {}", k, e)),
+                        }
+                        return Ok(());
+                    }
+                    2 if st.next_down < plan.downs.len() && u.sess.is_some() => {
+                        let k = st.next_down;
+                        let w = step_payload(c.seed, st.idx, true, k, plan.downs[k].min(1400));
+                        st.next_down += 1;
+                        let mut rs = u.sess.clone().unwrap();
+                        rs.server_sid = 0x7700_0000_0000_0000 | st.idx as u64;
+                        rs.pid = k as u64 + 1;
+                        let mut wire = BytesMut::new();
+                        rt::catch(|| sudp.encode(&w, address.clone(), &rs, &mut wire)).map_err(|p| format!("server encode panicked: {}", p))?.map_err(|e| format!("reply {}: server encode: {}", k, e))?;
+                        u.down_q.push_back((k, wire));
+                        return Ok(());
+                    }
+                    3 if !u.down_q.is_empty() => {
+                        let (k, mut wire) = u.down_q.pop_front().unwrap();
+                        let want = step_payload(c.seed, st.idx, true, k, plan.downs[k].min(1400));
+                        match rt::catch(|| u.cc.decode(&mut wire)).map_err(|p| format!("client decode panicked: {}", p))? {
+                            Ok(Some((content, addr))) => {
+                                if content != want || addr != address {
+                                    return Err(format!("reply {}: client decoded {} bytes from {:?}, the server sent {} bytes from {:?}", k, content.len(), addr, want.len(), address));
+                                }
+                                u.down_seen += 1;
+                            }
+                            Ok(None) => return Err(format!("reply {}: client decoded nothing", k)),
+                            Err(e) => return Err(format!("reply {}: client decode: {}", k, e)),
+                        }
+                        return Ok(());
+                    }
+                    _ => {}
+                }
+            }
+            st.done = true;
+            Ok(())
+        }
+    }
+}
+
+/// What the session must have observed once it has nothing left to do.
+fn step_verdict(c: &StepCase, st: &StepSt) -> Result<(), String> {
+    match &st.kind {
+        Kind::Tcp(t) => {
+            if st.plan.ups.is_empty() {
+                return Ok(());
+            }
+            let mut up = vec![];
+            for (k, l) in st.plan.ups.iter().enumerate() {
+                up.extend_from_slice(&step_payload(c.seed, st.idx, false, k, *l));
+            }
+            match crate::drive::flow_of(&t.items) {
+                crate::drive::Flow::Tcp { addr, bytes } => {
+                    if addr != st.target {
+                        return Err(format!("the server decoded target {:?}, the flow asked for {:?}", addr, st.target));
+                    }
+                    if bytes != up {
+                        let at = bytes.iter().zip(up.iter()).position(|(a, b)| a != b).unwrap_or(bytes.len().min(up.len()));
+                        return Err(format!("the server decoded {} upload bytes, the flow wrote {}; first difference at {}", bytes.len(), up.len(), at));
+                    }
+                }
+                other => return Err(format!("the server did not accept the flow's request: {:?}", std::mem::discriminant(&other))),
+            }
+            let mut down = vec![];
+            for (k, l) in st.plan.downs.iter().enumerate().take(st.next_down) {
+                down.extend_from_slice(&step_payload(c.seed, st.idx, true, k, *l));
+            }
+            if t.got_down != down {
+                let at = t.got_down.iter().zip(down.iter()).position(|(a, b)| a != b).unwrap_or(t.got_down.len().min(down.len()));
+                return Err(format!("the client decoded {} answer bytes, the server wrote {}; first difference at {}", t.got_down.len(), down.len(), at));
+            }
+            Ok(())
+        }
+        Kind::Udp(u) => {
+            if u.up_seen != st.next_up || u.down_seen != st.next_down {
+                return Err(format!("{} of {} datagrams and {} of {} replies were decoded", u.up_seen, st.next_up, u.down_seen, st.next_down));
+            }
+            Ok(())
+        }
+    }
+}
+
+/// Runs the sessions listed in `only` (all when None) in the case's order. Returns (first deviation, order of calls).
+fn step_run(c: &StepCase, only: Option<usize>) -> Result<(Option<(usize, String)>, Vec<u8>), String> {
+    real::set_clock(Some(T0));
+    let sh = step_shared(c)?;
+    let mut sts: Vec<StepSt> = vec![];
+    for (i, p) in c.sessions.iter().enumerate() {
+        if only.map(|o| o == i).unwrap_or(true) {
+            sts.push(step_new(c, &sh, i, p)?);
+        }
+    }
+    let mut order: Vec<u8> = vec![];
+    let mut sched = c.schedule.iter();
+    let mut rr = 0usize;
+    let mut guard = 0usize;
+    loop {
+        let live: Vec<usize> = (0..sts.len()).filter(|i| !sts[*i].done).collect();
+        if live.is_empty() {
+            break;
+        }
+        guard += 1;
+        if guard > 200_000 {
+            return Err("harness: interleaving did not terminate".into());
+        }
+        let pick = match sched.next() {
+            Some(s) => live[*s as usize % live.len()],
+            None => {
+                rr += 1;
+                live[rr % live.len()]
+            }
+        };
+        order.push(sts[pick].idx as u8);
+        if let Err(e) = step_once(c, &sh, &mut sts[pick]) {
+            return Ok((Some((sts[pick].idx, e)), order));
+        }
+        if sts[pick].done {
+            if let Err(e) = step_verdict(c, &sts[pick]) {
+                return Ok((Some((sts[pick].idx, e)), order));
+            }
+        }
+    }
+    Ok((None, order))
+}
+
+pub struct InterleavedSteps;
+
+impl SubCheck for InterleavedSteps {
+    type Case = StepCase;
+    fn name(&self) -> &'static str {
+        "interleaved-steps"
+    }
+    fn strategy(&self, tier: Tier) -> BoxedStrategy<StepCase> {
+        let max_s = if tier == Tier::Thorough { 10usize } else { 6 };
+        let sess = (
+            prop::bool::weighted(0.35),
+            0u8..6,
+            gen::write_lens(5, tier == Tier::Thorough).prop_map(|mut v| {
+                if v.is_empty() {
+                    v.push(33);
+                }
+                for x in v.iter_mut() {
+                    *x = (*x).max(1);
+                }
+                v
+            }),
+            gen::write_lens(4, false).prop_map(|v| v.into_iter().map(|x| x.max(1)).collect::<Vec<u32>>()),
+            proptest::collection::vec(prop_oneof![3 => Just(0u16), 2 => 1u16..40, 2 => 40u16..600, 1 => 600u16..9000], 0..5),
+            proptest::collection::vec(0u8..4, 0..6),
+        )
+            .prop_map(|(udp, user, ups, downs, seg, script)| StepSession { udp, user, ups, downs, seg, script });
+        (gen::proto_strategy(), 0u8..5, any::<u64>(), proptest::collection::vec(sess, 2..=max_s), proptest::collection::vec(any::<u8>(), 0..300))
+            .prop_map(|(proto, n_users, seed, sessions, schedule)| StepCase { proto, n_users, seed, sessions, schedule })
+            .boxed()
+    }
+    fn exec(&self, c: &StepCase) -> Outcome {
+        let mut out = Outcome::new();
+        out.label(format!("proto:{}", c.proto.short()));
+        let (dev, order) = match step_run(c, None) {
+            Ok(x) => x,
+            Err(e) if e.starts_with("harness:") => {
+                out.label("harness-could-not-build-case");
+                return out;
+            }
+            Err(e) => {
+                out.fail("interleaved-steps/harness", e);
+                return out;
+            }
+        };
+        out.weight = order.len().max(1) as u64;
+        // interleaved = some session made a call between two calls of another one
+        let mut switches = 0usize;
+        for w in order.windows(2) {
+            if w[0] != w[1] {
+                switches += 1;
+            }
+        }
+        let is_ss = matches!(c.proto, Proto::SsLegacy(_) | Proto::Ss22(_));
+        let n_udp = if is_ss { c.sessions.iter().filter(|s| s.udp).count() } else { 0 };
+        let table = gen::make_cred(c.proto, "interleaving password", c.seed, c.n_users as usize, 0).users.len();
+        let users: std::collections::BTreeSet<usize> = c.sessions.iter().map(|s| s.user as usize % (c.n_users as usize).max(1) % table.max(1)).collect();
+        if users.len() >= 2 && table >= 2 {
+            out.label("sessions-of-different-users");
+        }
+        if n_udp > 0 && n_udp < c.sessions.len() {
+            out.label("tcp-and-udp-mixed");
+        }
+        if switches >= 3 {
+            out.label("calls-interleaved");
+            out.nontrivial(format!("{}|{}s|{}u|sw{}", c.proto.short(), c.sessions.len(), n_udp, switches.min(400) / 20));
+        }
+        if let Some((idx, e)) = dev {
+            // the same session alone, same calls in the same order
+            match step_run(c, Some(idx)) {
+                Ok((None, _)) => {
+                    out.fail(
+                        format!("interleaved-steps/{}/result-differs-from-running-alone", c.proto.protocol_name()),
+                        format!("{} sessions advanced call by call on one shared context ({}): session {} ({}) deviates although the same calls succeed when it runs alone: {}", c.sessions.len(), c.proto.short(), idx, if c.sessions[idx].udp && is_ss { "udp" } else { "tcp" }, e),
+                    );
+                }
+                Ok((Some(_), _)) => {
+                    // not a matter of sharing: C03 / C04 decide that
+                    out.label("fails-alone");
+                }
+                Err(_) => {
+                    out.label("harness-could-not-build-case");
+                }
+            }
+        }
+        out
+    }
+}
+
 pub fn subs() -> Vec<Box<dyn DynSub>> {
-    vec![Box::new(UdpCodecStress), Box::new(TcpSharedContext), Box::new(crate::props::c10::ConcurrentReplay), Box::new(ManyFlows)]
+    vec![Box::new(UdpCodecStress), Box::new(TcpSharedContext), Box::new(InterleavedSteps), Box::new(crate::props::c10::ConcurrentReplay), Box::new(ManyFlows)]
 }
 
 pub fn run(ctx: &mut PropCtx) {
@@ -365,6 +803,7 @@ pub fn run(ctx: &mut PropCtx) {
     let t = ctx.tier;
     rt::run_sub(ctx, &UdpCodecStress, t.pick(40, 300));
     rt::run_sub(ctx, &TcpSharedContext, t.pick(40, 300));
+    rt::run_sub(ctx, &InterleavedSteps, t.pick(15_000, 600_000));
     rt::run_sub(ctx, &crate::props::c10::ConcurrentReplay, t.pick(60, 1500));
     rt::run_sub(ctx, &ManyFlows, t.pick(10, 120));
 }
